@@ -16,7 +16,7 @@ func init() {
 	}, c25)
 	reg("C26", Meta{
 		Technique:   "must-guard / bad-edge reachability and must-follow on SSA, lockset analysis for the flagged-peer map",
-		Explanation: "C26 (blocker), structural clauses: (G1) the sequencer clock advances only on NetworkStatus()==Available; (G2) Blocklist(...) is called only behind 0 < blockAfter and blockAfter < sequence.Load(); (F1) every path from a Blocklist call deletes that peer's entry before the loop continues or the function returns (a flag period leads to at most one blocklisting); (G3) Flag installs a deadline only when no entry exists (first deadline kept) and only when the network is available; (F2) Unflag and PruneUnseen delete entries (a success / unseen peer is never blocklisted later); (Lk1) every access to Blocker.peers holds Blocker.mu. Not decided: wall-clock timing (that the deadline equals the flag timeout).",
+		Explanation: "C26 (blocker), structural clauses: (G1) the sequencer clock is only ever incremented, by exactly one tick, and only on NetworkStatus()==Available (an advance by a computed amount such as elapsed wall time would count unavailable time); (G2) Blocklist(...) is called only behind 0 < blockAfter and blockAfter < sequence.Load(); (F1) every path from a Blocklist call deletes that peer's entry before the loop continues or the function returns (a flag period leads to at most one blocklisting); (G3) Flag installs a deadline only when no entry exists (first deadline kept) and only when the network is available; (F2) Unflag and PruneUnseen delete entries (a success / unseen peer is never blocklisted later); (Lk1) every access to Blocker.peers holds Blocker.mu. Not decided: wall-clock timing (that the deadline equals the flag timeout).",
 	}, c26)
 }
 
@@ -353,7 +353,7 @@ func c26(r *core.Run) {
 	la := core.NewLockAnalysis(w, "pkg/blocker")
 	la.Run()
 	n := la.CheckGuarded(r, "C26.Lk1", B, "peers", B+".mu", nil)
-	r.Floor("C26.Lk1", "accesses to Blocker.peers", n, 6)
+	r.Floor("C26.Lk1", "accesses to Blocker.peers", n, 3)
 }
 
 // mustPassFromInstr: every path from instruction a to a Return, or back to the loop header
